@@ -348,9 +348,13 @@ class NativeCtx:
         self.float_mode = contract.opts.get('float_mode', 'FP')
         self._patched = []
         self._counters = {}
+        self.sampler = None
+        self._pending_kind = None
         self._install_helpers()
 
     def _val(self, name, default=None):
+        if name not in self.values and self.sampler is not None:
+            self.values[name] = self.sampler(name, self._pending_kind)
         if name not in self.values:
             # inputs declared after the point at which the model was taken: any value will do
             if default is None:
@@ -363,12 +367,15 @@ class NativeCtx:
         return v
 
     def int(self, name, lo=None, hi=None):
+        self._pending_kind = ('int', lo, hi)
         return self._reg(name, int(self._val(name, lo if lo is not None else (hi if hi is not None and hi < 0 else 0))))
 
     def bool(self, name):
+        self._pending_kind = ('bool',)
         return self._reg(name, bool(self._val(name, False)))
 
     def float(self, name, finite=False):
+        self._pending_kind = ('float', finite)
         v = self._val(name, {'f64bits': 0})
         if 'f64bits' in v:
             x = struct.unpack('<d', struct.pack('<Q', v['f64bits']))[0]
@@ -382,6 +389,7 @@ class NativeCtx:
         return float(v['real'])
 
     def floats(self, name, n, kind='list', finite=False):
+        self._pending_kind = ('floats', n, finite)
         v = [self._f(x) for x in self._val(name, [{'f64bits': 0}] * n)]
         return self._reg(name, tuple(v) if kind == 'tuple' else v)
 
@@ -392,12 +400,15 @@ class NativeCtx:
         self.ns[helper] = resolve(ref)
 
     def bytes(self, name, n):
+        self._pending_kind = ('ints', n, 0, 255)
         return self._reg(name, bytes(self._val(name, [0] * n)))
 
     def bytearray(self, name, n):
+        self._pending_kind = ('ints', n, 0, 255)
         return self._reg(name, bytearray(self._val(name, [0] * n)))
 
     def ints(self, name, n, lo=None, hi=None, kind='list'):
+        self._pending_kind = ('ints', n, lo, hi)
         v = list(self._val(name, [lo if lo is not None else 0] * n))
         if kind == 'tuple':
             v = tuple(v)
@@ -408,14 +419,17 @@ class NativeCtx:
         return self._reg(name, v)
 
     def str(self, name, n, lo=32, hi=126):
+        self._pending_kind = ('ints', n, lo, hi)
         return self._reg(name, ''.join(chr(c) for c in self._val(name, [lo] * n)) if n else '')
 
     def seq(self, name, kind='bytes', maxlen=None):
+        self._pending_kind = ('seq', maxlen)
         v = list(self._val(name, []))
         v = {'bytes': bytes, 'bytearray': bytearray, 'list': list, 'tuple': tuple}[kind](v)
         return self._reg(name, v)
 
     def choice(self, name, options):
+        self._pending_kind = ('int', 0, len(options) - 1)
         return self._reg(name, options[int(self._val(name, 0))])
 
     def let(self, name, value):
@@ -718,6 +732,65 @@ class NativeCtx:
         ns['Deadlock'] = 'Deadlock'
 
 
+def make_sampler(rng):
+    """input generator for the bounded native stand-in: boundary values first, then random"""
+    import struct as st
+
+    def rint(lo, hi):
+        cands = [0, 1, -1, 2, 127, 128, 255, 256, 32767, 32768, 65535, 65536, 2 ** 31 - 1, 2 ** 31, 2 ** 32 - 1, 2 ** 32,
+                 2 ** 53, 2 ** 53 + 1, 2 ** 63 - 1, 2 ** 63, 2 ** 64 - 1, 2 ** 64, -128, -129, -32768, -32769, -2 ** 31, -2 ** 31 - 1,
+                 -2 ** 63, -2 ** 63 - 1, -2 ** 53 - 1]
+        if lo is not None:
+            cands += [lo, lo + 1]
+        if hi is not None:
+            cands += [hi, hi - 1]
+        ok = [v for v in cands if (lo is None or v >= lo) and (hi is None or v <= hi)]
+        r = rng.random()
+        if ok and r < 0.6:
+            return rng.choice(ok)
+        a = lo if lo is not None else -2 ** 70
+        b = hi if hi is not None else 2 ** 70
+        if r < 0.8:
+            k = rng.randrange(1, 71)
+            v = rng.choice([1, -1]) * (rng.getrandbits(k))
+            return min(max(v, a), b)
+        return rng.randint(a, b)
+
+    def rfloat(finite):
+        specials = [0.0, -0.0, 1.0, -1.0, 0.5, 1e-3, 3.4028234663852886e38, 3.5e38, -3.5e38, 1e308, 5e-324, 32.767, 32.768, -32.769]
+        if not finite:
+            specials += [float('inf'), float('-inf'), float('nan')]
+        r = rng.random()
+        if r < 0.4:
+            x = rng.choice(specials)
+        elif r < 0.8:
+            x = rng.uniform(-100, 100)
+        else:
+            x = st.unpack('<d', st.pack('<Q', rng.getrandbits(64)))[0]
+            if finite and (x != x or x in (float('inf'), float('-inf'))):
+                x = rng.uniform(-1e6, 1e6)
+        return {'f64bits': st.unpack('<Q', st.pack('<d', x))[0]}
+
+    def sample(name, kind):
+        if kind is None:
+            return 0
+        if kind[0] == 'int':
+            return rint(kind[1], kind[2])
+        if kind[0] == 'bool':
+            return rng.random() < 0.5
+        if kind[0] == 'float':
+            return rfloat(kind[1])
+        if kind[0] == 'floats':
+            return [rfloat(kind[2]) for _ in range(kind[1])]
+        if kind[0] == 'ints':
+            return [rint(kind[2], kind[3]) for _ in range(kind[1])]
+        if kind[0] == 'seq':
+            n = rng.randint(0, kind[1] if kind[1] is not None else 40)
+            return [rng.randint(0, 255) for _ in range(n)]
+        return 0
+    return sample
+
+
 def _summ(v, depth=0):
     try:
         r = repr(v)
@@ -735,7 +808,10 @@ def run_job(job):
     out = {'cflib': cflib.__file__, 'runs': []}
     for item in job['items']:
         c = contracts[item['contract']]
-        ctx = NativeCtx(c, item['values'])
+        ctx = NativeCtx(c, dict(item['values']))
+        if item.get('sample_seed') is not None:
+            import random
+            ctx.sampler = make_sampler(random.Random(item['sample_seed']))
         rec = {'contract': c.name, 'tag': item.get('tag'), 'ensures': [], 'error': None}
         try:
             c.fn(ctx)
@@ -746,6 +822,7 @@ def run_job(job):
         finally:
             ctx.unpatch()
         rec['ensures'] = [list(r) for r in ctx.results]
+        rec['values'] = {k: v for k, v in ctx.values.items()}
         rec['raised'] = ctx.ns.get('raised')
         rec['exc'] = _summ(ctx.ns.get('exc')) if ctx.ns.get('exc') is not None else None
         rec['result'] = _summ(ctx.ns.get('result'))
